@@ -24,9 +24,20 @@ def _act(m):
     return m.method(D, 'handle_activate', inherited=False)
 
 
-def _snapshot_sends(f):
-    return [c for c in calls_in(f.node) if call_attr(c) == 'send_reply' and c.args and isinstance(c.args[0], ast.Call)
-            and call_attr(c.args[0]) == 'make_update']
+def _is_snapshot_send(c):
+    return call_attr(c) == 'send_reply' and bool(c.args) and isinstance(c.args[0], ast.Call) and call_attr(c.args[0]) == 'make_update'
+
+
+def _snapshot_sends_deep(m, f):
+    """snapshot sends in handle_activate or in a private helper it calls: [(call, owner FuncInfo, site in f)]"""
+    from sa.lib import deep_calls
+    return deep_calls(m, f, _is_snapshot_send)
+
+
+def _snapshot_sends(f, m=None):
+    if m is not None:
+        return [c for c, owner, site in _snapshot_sends_deep(m, f)]
+    return [c for c in calls_in(f.node) if _is_snapshot_send(c)]
 
 
 def _registrations(f):
@@ -48,7 +59,8 @@ def register_then_snapshot(ctx):
     ctx.analysed(f)
     cfg = CFG(f.node, m, f.module)
     regs = _registrations(f)
-    snaps = _snapshot_sends(f)
+    deep = _snapshot_sends_deep(m, f)
+    snaps = [site for c, owner, site in deep]
     if not regs or not snaps:
         raise AnchorMissing('registration or snapshot send_reply not found in handle_activate', violation='frappy.protocol.dispatcher.Dispatcher.handle_activate:registration and snapshot present')
     reg_ids = [i for c in regs for i in cfg.node_of(c)]
@@ -72,8 +84,8 @@ def snapshot_under_update_lock(ctx):
     m = ctx.m
     f = _act(m)
     ctx.analysed(f)
-    for c in _snapshot_sends(f):
-        locks = lock_regions(c)
+    for c, owner, site in _snapshot_sends_deep(m, f):
+        locks = lock_regions(c) + (lock_regions(site) if site is not c else [])
         ok = any(l.endswith('.updateLock') and not l.startswith('self.') for l in locks)
         ctx.check(ok, f'{f.qualname}:snapshot inside updateLock', c,
                   f'inside lock region(s) {locks}',
@@ -199,7 +211,7 @@ def scope_check_before_registration(ctx):
                 if op in ('in', 'notin') and l == 'pname' and '.' in r:
                     tested.add(r.rpartition('.')[2])
     indexed = set()
-    for c in _snapshot_sends(f):
+    for c in _snapshot_sends(f, m):
         for n in ast.walk(c):
             if isinstance(n, ast.Subscript) and src(n.slice) == 'pname':
                 indexed.add(src(n.value).rpartition('.')[2])
@@ -222,7 +234,7 @@ def snapshot_covers_broadcast(ctx):
     funnel = roles.cache_funnel(m)
     ctx.analysed(f)
     ok = False
-    for c in _snapshot_sends(f):
+    for c in _snapshot_sends(f, m):
         for a in ancestors(c):
             if isinstance(a, ast.If) and '.export' in src(a.test) and 'Parameter' in src(a.test):
                 ok = True
